@@ -424,6 +424,10 @@ impl<'a> Gen<'a> {
             };
             return self.wrap(p, false);
         }
+        if roll == 5 && self.r.chance(1, 2) {
+            let b = Shape::Battery(self.r.below(3) as u8);
+            return self.wrap(b, false);
+        }
         if roll == 4 && self.sw.any {
             let a = if self.r.chance(1, 2) {
                 Shape::Any {
@@ -578,6 +582,9 @@ impl<'a> Gen<'a> {
             });
         }
         o.fallback_to_usage = self.r.chance(1, 6);
+        if self.r.chance(1, 16) {
+            o.cargo = Some(*self.r.pick(&["cmd", "tool"][..]));
+        }
         o
     }
 
@@ -765,6 +772,16 @@ pub fn sentence(r: &mut Rng, s: &Shape, hostile: bool, out: &mut Sentence) {
             }
         }
         Shape::Pure(_) | Shape::PureWith(_) | Shape::Fail(_) => {}
+        Shape::Battery(kind) => {
+            let toks: &[&str] = match kind {
+                0 | 1 => &["-v", "-q", "--verbose", "--quiet", "-vv", "-vq"],
+                _ => &["--on", "--off"],
+            };
+            let n = *r.pick(&[0usize, 1, 2, 4][..]);
+            for _ in 0..n {
+                out.named.push(vec![t(*r.pick(toks))]);
+            }
+        }
         Shape::Cmd {
             name,
             shorts,
@@ -950,6 +967,16 @@ pub fn base_sentence(r: &mut Rng, o: &Opts, hostile: bool) -> Vec<Tok> {
         pos: vec![],
     };
     sentence(r, &o.root, hostile, &mut s);
+    if let Some(c) = o.cargo {
+        if r.chance(1, 2) {
+            // `cargo tool ...` passes the subcommand name first
+            let mut v = vec![t(c)];
+            let pos = std::mem::take(&mut s.pos);
+            v.extend(s.flatten(r, true));
+            v.extend(pos);
+            return v;
+        }
+    }
     let dd = !s.pos.is_empty() && r.chance(1, 6);
     let pos = std::mem::take(&mut s.pos);
     let mut v = s.flatten(r, true);
@@ -1055,6 +1082,8 @@ pub enum EnvState {
     Valid,
     Invalid,
     NonUtf8,
+    /// values that tempt an implementation into a "nicety": whitespace, 0/false, lists, `~`, `$X`
+    Odd,
 }
 
 pub fn env_value(r: &mut Rng, st: EnvState) -> Option<Tok> {
@@ -1064,15 +1093,27 @@ pub fn env_value(r: &mut Rng, st: EnvState) -> Option<Tok> {
         EnvState::Valid => Some(t(*r.pick(&["1", "42", "7", "8", "21"][..]))),
         EnvState::Invalid => Some(t(*r.pick(&["x", "13", "99", "bad", "oops", "1.5", "-"][..]))),
         EnvState::NonUtf8 => Some(vec![b'4', 0xff, b'2']),
+        EnvState::Odd => Some(
+            r.pick(
+                &[
+                    " 7", "7 ", " 7 ", "\t7", "7\n", "0", "false", "no", "FALSE", "off", "1,2", "a,b",
+                    "1:2", "~", "~/x", "$HOME", "${BPAF_V_A}", "X y", "=1", "TRUE", "+7", "0x10", "07",
+                    "1_000", "-", "--", "-7",
+                ][..],
+            )
+            .as_bytes()
+            .to_vec(),
+        ),
     }
 }
 
 pub fn env_state(r: &mut Rng) -> EnvState {
-    match r.below(10) {
+    match r.below(12) {
         0..=2 => EnvState::Unset,
         3 => EnvState::Empty,
         4..=6 => EnvState::Valid,
         7..=8 => EnvState::Invalid,
-        _ => EnvState::NonUtf8,
+        9 => EnvState::NonUtf8,
+        _ => EnvState::Odd,
     }
 }
